@@ -59,6 +59,18 @@ pub fn lanes() -> Vec<Lane> {
     v.push(fault_lane());
     v.push(frame_lane());
     v.push(Lane {
+        prop: "C16",
+        family: "PAGED",
+        gen: gen::gen_paged,
+        cfg: cfg_default,
+        check: oracle::check_c16,
+        nontrivial: paged_nontrivial,
+        rule: "seeded PAGED scenarios (paging server model: 0-200 entries, honours / caps / ignores the page size, random cookies of 1-64 bytes incl. NUL and bytes >= 0x80, empty first page, no paging support; page sizes 0-1000; adapter alone, before or behind EntriesOnly; accompanying controls and options; caller-supplied paging control; streams read to the end or finished early; 1-2 concurrent clients); non-trivial = at least two pages were fetched; distinct = distinct history-shape hash",
+        expand: None,
+        quick: 100_000,
+        thorough: 3_000_000,
+    });
+    v.push(Lane {
         prop: "C02",
         family: "SEQ",
         gen: gen::gen_seq,
@@ -235,6 +247,10 @@ fn seq_resp_nontrivial(sc: &Scenario, _rr: &RunResult) -> bool {
             crate::scenario::ReplyPlan::Items { done: Some(d), .. } => d.ctrls.is_some() || d.res.refs.is_some(),
             _ => false,
         })
+}
+
+fn paged_nontrivial(_sc: &Scenario, rr: &RunResult) -> bool {
+    rr.requests.iter().filter(|q| matches!(q.op, crate::msg::ReqOp::Search { .. })).count() >= 2
 }
 
 fn cfg_strict_stream(_sc: &Scenario, c: &mut RunCfg) {
